@@ -203,6 +203,8 @@ struct SendSide {
     requested: bool,
     chunk: usize,
     finished: bool,
+    /// submit every chunk at once instead of waiting for capacity
+    eager: bool,
 }
 
 impl SendSide {
@@ -226,6 +228,13 @@ impl SendSide {
                 return Ok(true);
             }
             let want = (self.msg.size - self.sent).min(self.chunk);
+            if self.eager {
+                // a sender that does not wait for capacity: h2 buffers what the windows do not allow yet (several
+                // frames of one stream queue up behind a blocked one; their order is the body's order)
+                ss.send_data(body(self.tag, self.sent, want), false).map_err(|e| format!("send_data {:?}", e))?;
+                self.sent += want;
+                continue;
+            }
             if !self.requested {
                 ss.reserve_capacity(want);
                 self.requested = true;
@@ -594,13 +603,16 @@ pub fn run(seed: u64, mode: &str) -> String {
                                 gate: resps[k].interim >= 1 && (seed as usize + k) % 2 == 0,
                                 recv: RecvSide { body: Some(b), tag: 2 * k, msg: reqs[k].clone(), got: 0, data_done: false },
                                 resp: Some(resp),
-                                send: SendSide { ss: None, tag: 2 * k + 1, msg: resps[k].clone(), sent: 0, requested: false, chunk: *rng.pick(&[1usize, 100, 16384, 100000]), finished: false },
+                                send: SendSide { ss: None, tag: 2 * k + 1, msg: resps[k].clone(), sent: 0, requested: false, chunk: *rng.pick(&[1usize, 100, 16384, 100000]), finished: false, eager: false },
                                 interim_sent: 0,
                                 responded: false,
                                 st: St::Run,
                                 reset_at,
                                 was_reset: false,
                             });
+                            if let Some(t) = stasks.last_mut() {
+                                t.send.eager = t.send.chunk >= 100 && (seed as usize + t.send.tag) % 3 == 0;
+                            }
                             set_flag(&flags, tid);
                         }
                         Poll::Ready(Some(Err(e))) => {
@@ -651,7 +663,7 @@ pub fn run(seed: u64, mode: &str) -> String {
                             let reset_at = if chaos && rng.chance(1, 5) { Some(steps + rng.below(400)) } else { None };
                             ctasks.push(CTask {
                                 gate: resps[k].interim >= 1 && (seed as usize + k) % 2 == 0,
-                                send: SendSide { ss: Some(ss), tag: 2 * k, msg: reqs[k].clone(), sent: 0, requested: false, chunk: *rng.pick(&[1usize, 100, 16384, 100000]), finished: false },
+                                send: SendSide { ss: Some(ss), tag: 2 * k, msg: reqs[k].clone(), sent: 0, requested: false, chunk: *rng.pick(&[1usize, 100, 16384, 100000]), finished: false, eager: false },
                                 rf: Some(rf),
                                 interim_got: 0,
                                 recv: RecvSide { body: None, tag: 2 * k + 1, msg: resps[k].clone(), got: 0, data_done: false },
@@ -659,6 +671,9 @@ pub fn run(seed: u64, mode: &str) -> String {
                                 reset_at,
                                 was_reset: false,
                             });
+                            if let Some(t) = ctasks.last_mut() {
+                                t.send.eager = t.send.chunk >= 100 && (seed as usize + t.send.tag) % 3 == 0;
+                            }
                             set_flag(&flags, tid);
                             started += 1;
                         }
